@@ -414,12 +414,16 @@ static void dfs(unsigned char* buf, size_t len, int depth, int maxdepth, int all
       /* probe: does the decoder ask for more input here? (uses the real decoder only to prune) */
       one_load(buf, nl);
       if (depth + 1 < maxdepth && !classes[c].last_only) {
-        struct cbor_load_result r;
-        cbor_verif_load_hook = NULL;
-        cbor_item_t* it = cbor_load(buf, nl, &r);
-        cbor_verif_load_hook = opt_lean ? NULL : hook;
-        int want_more = !it && r.error.code == CBOR_ERR_NOTENOUGHDATA && r.error.position == nl;
-        if (it) cbor_decref(&it);
+        int want_more = 0;
+        if (input_index != opt_skip) { /* (the input a previous run ended abnormally on is not probed again) */
+          struct cbor_load_result r;
+          cur_in = buf; cur_len = nl;
+          cbor_verif_load_hook = NULL;
+          cbor_item_t* it = cbor_load(buf, nl, &r);
+          cbor_verif_load_hook = opt_lean ? NULL : hook;
+          want_more = !it && r.error.code == CBOR_ERR_NOTENOUGHDATA && r.error.position == nl;
+          if (it) cbor_decref(&it);
+        }
         if (want_more || ref_live(dfs_toks, depth + 1)) dfs(buf, nl, depth + 1, maxdepth, all);
       }
     }
